@@ -74,6 +74,7 @@ m = {
  },
  "engines": [
   {"name": "vcheck", "path": "cmd/vcheck", "serves_properties": sorted(checks), "kind_free_text": "hand-written bounded exhaustive explorer: coordinator + 16 worker processes, history BFS with replay, deviation-bounded DFS, small-scope enumeration against Go reference models; every transition is an execution of the real interpreter"},
+  {"name": "maporder", "path": "tools/maporder", "serves_properties": ["C20"], "kind_free_text": "go/types based rewriter that wraps every range over a map in package zygo with a chooser seam; applied with go build -overlay, /repo is never modified"},
  ],
  "checks": [],
  "notes": "All checks: ./run.sh <id> <tier> rebuilds cmd/vcheck with -tags verif against /repo's current working tree and runs it. KNOWN_FINDINGS.txt lists recorded findings and fixed defects.",
@@ -86,7 +87,7 @@ for cid in sorted(checks):
      "quick_cmd": "./run.sh %s quick" % cid,
      "thorough_cmd": "./run.sh %s thorough" % cid,
      "evidence_file": "/verif/evidence/%s.json" % cid,
-     "replay_cmd_template": "bin/vcheck %s replay {path}" % cid,
+     "replay_cmd_template": ("bin/vcheck-c20 %s replay {path}" if cid == "C20" else "bin/vcheck %s replay {path}") % cid,
      "engine": "vcheck",
      "level_claimed": {"category": level, "text": text, "design_ref": ref},
      "level_note": note,
